@@ -436,6 +436,12 @@ def p_db_insert(E, mark):
     E.db.insert(E.Log, id=2, msg='again')
 
 
+def p_db_insert_returning(E, mark):
+    new_id = E.db.insert('Log', returning='id', id=1, msg='db.insert')      # the `returning` branch has its own _exec_sql call
+    E.Acct[1].bal -= 50
+    E.db.insert(E.Log, returning='id', id=2, msg='again')
+
+
 def p_get_connection(E, mark):
     con = E.db.get_connection()                 # nothing pending yet: get_connection itself has to open the transaction
     cur = con.cursor()
@@ -527,6 +533,7 @@ PROGRAMS = {
     'raw_first': (p_raw_first, [[('bal', 1, -50), ('bal', 2, 50), ('log+', 1, 'raw first')]]),
     'orm_first': (p_orm_first, [[('bal', 1, -50), ('bal', 2, 50), ('log+', 1, 'orm first')]]),
     'db_insert': (p_db_insert, [[('log+', 1, 'db.insert'), ('bal', 1, -50), ('log+', 2, 'again')]]),
+    'db_insert_returning': (p_db_insert_returning, [[('log+', 1, 'db.insert'), ('bal', 1, -50), ('log+', 2, 'again')]]),
     'get_connection': (p_get_connection, [[('bal', 1, -50), ('bal', 2, 50), ('log+', 1, 'raw cursor')]]),
     'bulk_delete': (p_bulk_delete, [[('acct-', 3), ('log+', 1, 'purged')]]),
     'two_flushes': (p_two_flushes, [[('acct+', 4, 400), ('bal', 1, -50), ('log+', 1, 'two flushes')]]),
@@ -853,6 +860,24 @@ def db_insert(k1: int, k2: int, k3: int, kind1: int, kind2: int, kind3: int, mod
     """
     return ok(_scenario('db_insert', k1, k2, k3, kind1, kind2, kind3, mode, warm))
 HARNESSES.append('db_insert')
+
+
+def db_insert_returning(k1: int, k2: int, k3: int, kind1: int, kind2: int, kind3: int, mode: int, warm: bool) -> bool:
+    """
+    pre: 0 <= k1 <= KMAX
+    pre: (k2 == 0) or (0 < k1 < k2 <= K2MAX)
+    pre: (k3 == 0) or (0 < k2 < k3 <= K3MAX)
+    pre: 0 <= kind1 < KINDS and 0 <= kind2 < KINDS and 0 <= kind3 < KINDS
+    pre: (kind1 == 0 or k1 != 0) and (kind2 == 0 or k2 != 0) and (kind3 == 0 or k3 != 0)
+    pre: (kind1 != 1 or k2 == 0) and (kind2 != 1 or k3 == 0)
+    pre: FULL or k2 == 0 or (kind1 == 0 and kind2 <= 1)
+    pre: k3 == 0 or (kind1 == 0 and kind2 == 0 and kind3 <= 1)
+    pre: 0 <= mode < MODES
+    pre: WARM or not warm
+    post: _
+    """
+    return ok(_scenario('db_insert_returning', k1, k2, k3, kind1, kind2, kind3, mode, warm))
+HARNESSES.append('db_insert_returning')
 
 
 def get_connection(k1: int, k2: int, k3: int, kind1: int, kind2: int, kind3: int, mode: int, warm: bool) -> bool:
